@@ -62,6 +62,11 @@ def build(env, name):
     if name.startswith("ARBFV2_"):
         order = int(name[7])
         return K.DiffARBFV2(order=order, length_scale=_ls(env, 3), scale=env.arr("s", (order + 1,), "pos", hi="8")), 3
+    if name in ("ARBF4w", "ARBFV2_4w", "AddRQ_4w"):
+        # order 4 over 4 features: the first order at which the gradient recursions of the additive kernels need their fourth step
+        cls = {"ARBF4w": K.DiffARBF, "ARBFV2_4w": K.DiffARBFV2, "AddRQ_4w": K.DiffAddRQ}[name]
+        kw = dict(alpha=env.const(Fraction(3, 2))) if name == "AddRQ_4w" else {}
+        return cls(order=4, length_scale=_ls(env, 4), scale=env.arr("s", (5,), "pos", hi="8"), **kw), 4
     if name.startswith("ARBF"):
         order = int(name[4])
         kw = {}
@@ -118,17 +123,22 @@ def build(env, name):
         return (K.DiffRBF(length_scale=_ls(env, 3)) + env.par("c", "pos", hi="8")) ** 3, 3
     if name == "White+RBF":
         return K.DiffWhiteKernel(noise_level=env.par("w", "pos", hi="8")) + K.DiffRBF(length_scale=_ls(env, 3)), 3
+    if name in ("Transform_std", "Transform_avg", "Transform_mat"):
+        # the optional pieces of the linear transform one at a time (each takes a different branch of DiffTransform._transform)
+        kw = {"Transform_std": dict(std=env.arr("std", (3,), "pos", lo="1/4", hi="4")), "Transform_avg": dict(avg=env.arr("avg", (3,), lo="-2", hi="2")), "Transform_mat": {}}[name]
+        mat = env.arr("M", (3, 3), lo="-2", hi="2")
+        return K.DiffTransform(K.DiffRBF(length_scale=_ls(env, 3)), mat, **kw), 3
     if name == "Transform":
         mat = env.arr("M", (3, 3), lo="-2", hi="2")
         return K.DiffTransform(K.DiffRBF(length_scale=_ls(env, 3)), mat, avg=env.arr("avg", (3,), lo="-2", hi="2"), std=env.arr("std", (3,), "pos", lo="1/4", hi="4")), 3
     raise ValueError(name)
 
 
-KERNELS_QUICK = ["RBF", "RBF_iso", "RBF_fixed", "Linear", "Poly2fa", "Poly3ni", "Poly2fax", "ARBF2", "ARBF2L", "ARBF2S", "ARBFV2_2", "AddLLRBF_2", "AddRQ_2",
+KERNELS_QUICK = ["ARBF4w", "RBF", "RBF_iso", "RBF_fixed", "Linear", "Poly2fa", "Poly3ni", "Poly2fax", "ARBF2", "ARBF2L", "ARBF2S", "ARBFV2_2", "AddLLRBF_2", "AddRQ_2",
                  "SubsetRBF", "SubsetRBF_slice", "SubsetARBF", "SubsetAddRQ", "SubsetAddLLRBF", "SubsetAddLLRBF_slice", "SubsetPoly", "SpinSymRBF", "SpinSymPoly", "PartialRBF", "PartialRBF_dims", "Antisym",
-                 "Const*RBF", "RBF+RBF", "RBF*Poly", "RBF**2", "Linear**2", "White+RBF", "Transform",
+                 "Const*RBF", "RBF+RBF", "RBF*Poly", "RBF**2", "Linear**2", "White+RBF", "Transform", "Transform_std", "Transform_avg", "Transform_mat",
                  "ARBF2_iso", "ARBFV2_2_iso", "AddRQ_2_iso", "AddLLRBF_2_iso", "SubsetARBF_iso", "Poly2f_iso"]
-KERNELS_THOROUGH = KERNELS_QUICK + ["Poly3fa", "Poly2ni", "Poly3na", "ARBF1", "ARBF3", "ARBFV2_1", "AddLLRBF_1", "AddRQ_1", "SpinSymARBF", "(RBF+c)**3", "Linear**3"]
+KERNELS_THOROUGH = KERNELS_QUICK + ["Poly3fa", "Poly2ni", "Poly3na", "ARBF1", "ARBF3", "ARBFV2_1", "AddLLRBF_1", "AddRQ_1", "SpinSymARBF", "(RBF+c)**3", "Linear**3", "ARBFV2_4w", "AddRQ_4w"]
 
 
 def _theta(k):
@@ -155,9 +165,18 @@ def h_kernel(env, name, what):
     X = env.arr("X", (2, d), lo="-4", hi="4")
     Y = env.arr("Y", (2, d), lo="-4", hi="4")
     if what == "symmetry":
-        ok, kxy = env.attempt("call_returns", lambda: k(X.copy(), Y.copy()))
+        Xin, Yin = X.copy(), Y.copy()
+        ok, kxy = env.attempt("call_returns", lambda: k(Xin, Yin))
         if not ok:
             return
+        Xd = X.copy()
+        k.diag(Xd)
+        for i in range(2):
+            for f in range(d):
+                # the caller's sample arrays are inputs: a second evaluation with the same arrays must see the same samples
+                env.equal("call_leaves_X_untouched_%d%d" % (i, f), Xin[i, f], X[i, f])
+                env.equal("call_leaves_Y_untouched_%d%d" % (i, f), Yin[i, f], Y[i, f])
+                env.equal("diag_leaves_X_untouched_%d%d" % (i, f), Xd[i, f], X[i, f])
         kyx = k(Y.copy(), X.copy())
         kxx = k(X.copy())
         kxx2 = k(X.copy(), X.copy())
@@ -172,9 +191,14 @@ def h_kernel(env, name, what):
     elif what == "symmetry_blocked":
         _h_blocked(env, k, d, name)
     elif what == "input_gradient":
-        ok, out = env.attempt("k_and_deriv_returns", lambda: k.k_and_deriv(X.copy(), Y.copy()))
+        Xin, Yin = X.copy(), Y.copy()
+        ok, out = env.attempt("k_and_deriv_returns", lambda: k.k_and_deriv(Xin, Yin))
         if not ok:
             return
+        for i in range(2):
+            for f in range(d):
+                env.equal("k_and_deriv_leaves_X_untouched_%d%d" % (i, f), Xin[i, f], X[i, f])
+                env.equal("k_and_deriv_leaves_Y_untouched_%d%d" % (i, f), Yin[i, f], Y[i, f])
         kk, dk = out
         kref = k(X.copy(), Y.copy())
         env.check("shapes", np.shape(kk) == (2, 2) and np.shape(dk) == (2, 2, d), "%s %s" % (np.shape(kk), np.shape(dk)))
